@@ -447,6 +447,20 @@ def check_marks(ctx, F):
         ctx.instance("C06.marks", site, {"function": site, "loc": F.floc(fid)})
         if bad is not None:
             ctx.violation("C06.marks", site, "%s (%s)" % (site, F.floc(fid)), "exit sequence %s, expected [user exit, clearTaskStatus(STATE_ID)]" % bad, {})
+    # the anonymous head of a head-less region has a state id like any other (marks can be set on it from outside, and by its default
+    # planSucceeded / planFailed): its exit clears them too
+    for fid, b in insts(F, "S_", {"deepExit"}, spec="empty"):
+        site = "S_<empty>::deepExit"
+        sid = F.const(b["tid"], "STATE_ID")
+        bad = None
+        for p in paths_of(ctx, F, fid):
+            clears = [ev[4] for ev in p if ev[0] == "call" and ev[2] is not None and F.fn(ev[2])["name"] == "clearTaskStatus"]
+            if clears != [["#%s" % sid]]:
+                bad = clears
+        ctx.instance("C06.marks", site, {"function": site, "loc": F.floc(fid)})
+        if bad is not None:
+            ctx.violation("C06.marks", site, "%s (%s)" % (site, F.floc(fid)),
+                          "the exit of a head-less region's head calls clearTaskStatus %s, expected once with its STATE_ID: its marks survive the exit of the region" % bad, {})
     for fid, b in insts(F, "PlanDataT", {"clearTaskStatus", "clearStatuses"}):
         if not b.get("body") or not list(walk(b["body"])):
             continue
